@@ -22,7 +22,34 @@ def jobs_for(registry_factory, quals=None, tier='quick', **kw):
 
 
 def run_jobs(jobs):
-    return V.verify_many(jobs, nproc=NPROC)
+    """Runs the units; a unit that comes back with an obligation neither discharged nor refuted (solver `unknown`, time-out, worker
+    death) is run a SECOND time, few at a time and with three times the proof budget, before its verdict is reported: an `unknown`
+    that is only due to machine load must never surface (a baseline obligation left undecided is reported as a violation)."""
+    res = V.verify_many(jobs, nproc=NPROC)
+    again = []
+    for i, r in enumerate(res):
+        flaky = r.get('status') in ('crash',) and 'timeout' in (r.get('error') or '').lower()
+        flaky = flaky or (r.get('status') == 'ok' and any(o.get('status') == 'undecided' for o in r.get('obligations', [])))
+        flaky = flaky or (r.get('status') == 'crash' and 'died' in (r.get('error') or '').lower())
+        if flaky:
+            again.append(i)
+    if again and not os.environ.get('VERIF_NO_CONFIRM'):
+        jobs2 = []
+        for i in again:
+            (q, case, regf), opts = jobs[i]
+            o2 = dict(opts)
+            o2['proof_timeout_ms'] = int(opts.get('proof_timeout_ms', 40000)) * 3
+            o2['retries'] = False
+            jobs2.append(((q, case, regf), o2))
+        res2 = V.verify_many(jobs2, nproc=max(1, min(4, NPROC // 3)))
+        for i, r2 in zip(again, res2):
+            n_open1 = sum(1 for o in res[i].get('obligations', []) if o.get('status') == 'undecided') if res[i].get('status') == 'ok' else 10 ** 6
+            n_open2 = sum(1 for o in r2.get('obligations', []) if o.get('status') == 'undecided') if r2.get('status') == 'ok' else 10 ** 6
+            refuted2 = any(o.get('status') == 'refuted' for o in r2.get('obligations', []))
+            if r2.get('status') == 'ok' and (n_open2 < n_open1 or refuted2):
+                r2['confirmation_run'] = True
+                res[i] = r2
+    return res
 
 
 def trusted_contracts(registry_factory):
